@@ -332,18 +332,18 @@ Proof.
       vm_compute; reflexivity.
   - intros x d H. ex_split_id x; vm_compute in H; try discriminate; vm_compute; reflexivity.
   - intros r p c H. destruct r; ex_split_id p; vm_compute in H; try contradiction;
-      repeat (destruct H as [H|H]; [subst c; vm_compute; repeat constructor|]); contradiction.
-  - intros x d H. ex_split_id x; vm_compute in H; try discriminate; vm_compute; repeat constructor.
+      repeat (destruct H as [H|H]; [subst c; vm_compute; lia|]); contradiction.
+  - intros x d H. ex_split_id x; vm_compute in H; try discriminate; vm_compute; lia.
 Qed.
 
 Example is_valid_example :
   exists s h, Inv1a s /\ Inv2a s /\ WFk s /\ is_valid s h = true /\ length h = 3.
 Proof.
-  exists ex_state, [4; 6; 7]. repeat split.
-  - apply run_inv1a; [apply inv1a_init|apply ex_never_stuck].
-  - apply run_inv2a; [apply inv2a_init|apply ex_never_stuck].
-  - apply ex_wfk.
-  - vm_compute. reflexivity.
+  exists ex_state, [4; 6; 7].
+  split; [apply run_inv1a; [apply inv1a_init|apply ex_never_stuck]|].
+  split; [apply run_inv2a; [apply inv2a_init|apply ex_never_stuck]|].
+  split; [apply ex_wfk|].
+  split; [vm_compute; reflexivity|reflexivity].
 Qed.
 
 Print Assumptions is_valid_iff_up.
